@@ -366,6 +366,23 @@ def rule_wdisp(rm, em):
         lookups = [c for c in lookups if c.bb in region]
         globals_ = [c for c in b.live_calls if any(t in rm.reach_reg_lock for t in ([c.ruid] if c.ruid else []))
                     and c.ruid not in rm.must_init and c.ruid not in em.eval_ids and c.bb in region]
+        if not lookups:
+            # the dispatch proper may sit in a private helper shared by several call forms (`call_function(name, params, ctx)`
+            # used by `f(x)` and by `x |> f()`): judged there
+            def _lookups_in(g):
+                return [c for c in g.live_calls if c.ruid and c.term['arg_tys'] and 'context::Context' in c.term['arg_tys'][0]
+                        and c.term['dest']['ty'].startswith('std::option::Option<') and 'dyn std::ops::Fn' in c.term['dest']['ty']]
+            cands = {}
+            for c in b.live_calls:
+                g = prog.by_id.get(c.ruid) if c.ruid and c.bb in region and c.ruid not in em.eval_ids else None
+                if g is not None and not g.is_closure and not g.j.get('reachable', g.is_pub) and _lookups_in(g):
+                    cands[g.id] = g
+            if len(cands) == 1:
+                b = next(iter(cands.values()))
+                region = set(b.live_blocks)
+                lookups = _lookups_in(b)
+                globals_ = [c for c in b.live_calls if any(t in rm.reach_reg_lock for t in ([c.ruid] if c.ruid else []))
+                            and c.ruid not in rm.must_init and c.ruid not in em.eval_ids]
         if len(lookups) != 1:
             obs.append(bad('WDISP', key, 'expected exactly one context-function lookup in %s, found %d' % (b.name, len(lookups)), b.where(), body=b.name))
             continue
